@@ -232,12 +232,20 @@ bool splinetable<Alloc>::read_fits_core(fitsfile* fits, const std::string& fileP
 				//added by FITS.
 				//The stored value must be allocated with exactly the size with which it
 				//will later be deallocated (its length plus the terminator).
-				const char* valuestart = value;
+				char* valuestart = value;
 				if(valuelen>1 && value[0]=='\''){
 					valuestart++; //remove an opening quote
 					valuelen--;
 					if(valuelen>1 && valuestart[valuelen-2]=='\'') //remove a trailing quote also
 						valuelen--;
+					//inside a FITS string a quote is written as two quotes; undo that
+					int out=0;
+					for(int in=0; in<valuelen-1; in++){
+						valuestart[out++]=valuestart[in];
+						if(valuestart[in]=='\'' && in+1<valuelen-1 && valuestart[in+1]=='\'')
+							in++;
+					}
+					valuelen=out+1;
 				}
 				aux[i] = allocate<char_ptr>(2);
 				aux[i][0] = aux[i][1] = NULL;
